@@ -477,6 +477,9 @@ func checkC06(c *Ctx, r *Report, tier string) {
 	walCompactionKeepsAnchor(c, r, "C06.R9")
 	r.Rule("C06.R10", "an iterator's key buffer is never retained: Item().Key() is copied (string conversion) or only read before the iterator advances", 2)
 	walIteratorKeyNotRetained(c, r, "C06.R10")
+	r.Rule("C06.R11", "cache lookups agree with the reference: FirstIndex consults the cached snapshot before the memoized first index (or every snapshot store refreshes the memo); the previous last index is read before the cache is overwritten", 2)
+	walCacheOrdering(c, r, "C06.R11")
+	persistConsumesAllParts(c, r, "C06.R4")
 }
 
 // familyPrefix: what the constructor copies to offset 0 of its buffer.
